@@ -16,7 +16,7 @@ FAMILY = {
     "_hooks.py": ["C01", "C02", "C03", "C10", "C11", "C13", "C14", "C15", "C19"],
     "types.py": ["C02", "C04", "C05", "C09", "C10", "C12", "C13", "C20", "C19"],
     "python/utils.py": ["C04", "C05", "C10", "C13", "C16"],
-    "validators.py": ["C12", "C11"],
+    "validators.py": ["C12", "C11", "C19"],
     "model.py": ["C18", "C16"],
     "__main__.py": ["C18", "C05"],
     "noxfile.py": ["C05"],
@@ -38,7 +38,7 @@ def checks_for(seed: str, patch: str):
                 for c in v:
                     if c not in out:
                         out.append(c)
-    if own in ("C06",) or seed in ("C07-2", "C07-3", "C07-5", "C07-6", "C07-7", "C07-8", "C08-8", "C17-7", "C04-8"):
+    if own in ("C06",) or seed in ("C07-2", "C07-3", "C07-5", "C07-6", "C07-7", "C07-8", "C08-8", "C17-7", "C04-8", "_harmless-14", "_harmless-15", "_harmless-16", "_harmless-17"):
         if "C06" not in out:
             out.append("C06")
     return out
